@@ -8,12 +8,13 @@
    recently registered stream, answers filtered by liveness), [hist_wf] = only live streams are
    registered, [sexec sinit ops] the specification state after the history [ops]. *)
 From Coq Require Import ZArith List Bool.
-From V Require Import Bytes StrGo Registry RegistryProofs.
+From V Require Import Val Bytes StrGo Registry RegistryProofs RunC05 RunC03Reg RegistryWireProofs.
 Import ListNotations.
 Open Scope Z_scope.
 
-(* 1. for every well-formed history (any length, any paths and spellings) the implementation
-   model's answers to Get / Count / List / Idle are exactly the specification's *)
+(* 1. for every well-formed history (any length, any paths and spellings; new / regist / unregist /
+   close / get / count / list / attach / detach / idle / unregist-all) the implementation model's answers are
+   exactly the specification's *)
 Theorem C05_impl_refines_spec : forall ops,
   hist_wf sinit ops = true -> snd (grun rfixed rinit ops) = srun sinit ops.
 Proof. exact impl_refines_spec. Qed.
@@ -24,6 +25,27 @@ Theorem C05_model_passes : forall ops,
   hist_wf sinit ops = true -> ok_hist_C05 ops (snd (grun rfixed rinit ops)) = true.
 Proof. exact model_passes. Qed.
 Print Assumptions C05_model_passes.
+
+(* … and so is its end state: the registry is the live part of the specification's table and the
+   streams (liveness, consumer counts, ghost counters) are the specification's *)
+Theorem C05_impl_end_state : forall ops,
+  hist_wf sinit ops = true -> fst (grun rfixed rinit ops) = absg (sexec sinit ops).
+Proof. exact impl_end_state. Qed.
+Print Assumptions C05_impl_end_state.
+
+(* the oracle on the whole observation — answers plus the per-stream end vector (live, consumers ever
+   attached, Consumer.Close calls) — accepts the model; also in its extracted, on-the-wire form *)
+Theorem C05_model_passes_end : forall ops,
+  hist_wf sinit ops = true ->
+  ok_hist_end_C05 ops (snd (grun rfixed rinit ops)) (end_vec (g_streams (fst (grun rfixed rinit ops)))) = true.
+Proof. exact model_passes_end. Qed.
+Print Assumptions C05_model_passes_end.
+
+Theorem C05_model_passes_on_the_wire : forall c,
+  c05_variant (nthv 0 c) = rfixed -> hist_wf sinit (c05_ops c) = true ->
+  x_C05_ok (VL [c; x_C05_run c]) = VI 1.
+Proof. exact c05_model_passes_on_the_wire. Qed.
+Print Assumptions C05_model_passes_on_the_wire.
 
 (* 3a. whatever a lookup returns is an existing live stream whose path is the key … *)
 Theorem C05_lookup_only_live : forall ops k i,
@@ -123,6 +145,17 @@ Theorem C05_count_matches_live_set : forall ops,
 Proof. exact count_matches_live_set. Qed.
 Print Assumptions C05_count_matches_live_set.
 
+(* 3e. shutdown (media.UnregistAll): afterwards no key resolves, every stream that resolved has ended,
+   every other stream is exactly as it was *)
+Theorem C05_unregist_all_closes_everything : forall ops,
+  let sp := sexec sinit ops in
+  let sp' := fst (sstep sp GUnregistAll) in
+  (forall k, sp_resolve sp' k = None) /\
+  (forall k i, sp_resolve sp k = Some i -> st_live (sp_get sp' i) = false) /\
+  (forall i, (forall k, sp_resolve sp k <> Some i) -> sp_get sp' i = sp_get sp i).
+Proof. exact unregist_all_closes_everything. Qed.
+Print Assumptions C05_unregist_all_closes_everything.
+
 (* 4. the code before the repairs violates the specification (D5, D7) *)
 Theorem C05_closed_stream_returned_refuted :
   exists ops,
@@ -192,6 +225,16 @@ Example C05_nonvacuous :
       RCount 1 0; RList [[47;97]]; RUnit; RGet (Some 1%nat); RCount 1 0;
       RIdle true; RGet None; RCount 0 0; RList [] ].
 Proof. exact example_hist_ok. Qed.
+
+Example C05_shutdown_nonvacuous :
+  hist_wf sinit example_shutdown = true /\
+  snd (grun rfixed rinit example_shutdown) = srun sinit example_shutdown /\
+  srun sinit example_shutdown =
+    [ RUnit; RUnit; RUnit; RUnit; RUnit; RUnit; RUnit; RGet (Some 1%nat); RCount 1 1;
+      RUnit; RGet None; RCount 0 0 ] /\
+  end_vec (g_streams (fst (grun rfixed rinit example_shutdown))) = [(false, 1, 1); (false, 1, 1)] /\
+  end_vec (sp_streams (sexec sinit example_shutdown)) = [(false, 1, 1); (false, 1, 1)].
+Proof. exact example_shutdown_ok. Qed.
 
 Example C05_race_nonvacuous : forall (p : bytes) (h0 h1 h2 reg0 : bool),
   let c := race_run (race_init p h0 h1 h2 reg0) [true; true; false; false] in
